@@ -393,6 +393,13 @@ func (sel *Selection) endEdit(r NodeRequest, bubble bool) error {
 }
 
 func (sel *Selection) Delete() (err error) {
+	if sel.parent == nil {
+		// deleting means asking the parent node to drop this one
+		return fmt.Errorf("%w. the root of a browser cannot be deleted", fc.BadRequestError)
+	}
+	if meta.IsLeaf(sel.Meta()) {
+		return fmt.Errorf("%w. %s is a leaf, clear it through its container", fc.BadRequestError, sel.Meta().Ident())
+	}
 
 	// allow children to recieve indication their parent is being deleted by
 	// sending node request w/delete=true
